@@ -556,6 +556,27 @@ def search(ctx, res, proof_broken):
 
 def replay(ctx, data):
     """re-run the stored history on the implementation and evaluate the oracle after every edit"""
+    if data.get("kind") == "no-failing-input-found":
+        # no oracle failure was found: re-run the stored diverging history on implementation and model
+        for b in data.get("correspondence_breaks") or []:
+            inp = b.get("input")
+            if not isinstance(inp, dict) or "edits" not in inp:
+                continue
+            h = History((inp["ne"], inp["np"], inp["nc"]))
+            for t in inp["edits"]:
+                h.step(du.parse_edit(t), "d+v+h")
+            r2 = Result()
+            drv = du.RDriver()
+            compare_with_model(r2, drv, [h])
+            drv.close()
+            for x in r2.exact_breaks[:1]:
+                print("  model and implementation still differ:", x.get("correspondence"), "at step", x.get("step"))
+                for fld, d in (x.get("differing_fields") or {}).items():
+                    print(f"    {fld}: impl  {d['impl'][:300]}\n    {' ' * len(fld)}  model {d['model'][:300]}")
+            if not r2.exact_breaks:
+                print("  model and implementation agree on the stored history")
+            return not r2.exact_breaks
+        return None
     v = data.get("violation") or {}
     inp = v.get("input")
     if not inp:
